@@ -2,7 +2,11 @@
      types                                       -> message types that carry a status
      x <exp> <act> <code> <desc> <fe> <pe>       -> one outcome line
      r <exp> <act> <lo> <hi> <desc> <fe> <pe>    -> one outcome line per code in [lo,hi)
+     xf <exp> <act>                              -> the outcome when the reply's payload does not decode (DecFail)
      dt <lo> <hi>                                -> per code: which text defaultText picks (table + index)
+     h <negotiated version> <event>...           -> the exchange model (Client/StatusExchange.v, xresults): events
+          S:<id>:<exp> | A:<id> | N:<ver> | R:<ver>:<typ>:<id>:<code>:<desc>:<fe>:<pe> (payload decodes as decoded_wf status);
+          answer: results in order, "<id>=abandoned" or "<id>=<outcome line>", joined by " | " ("-" if none)
    desc: "-" or hex bytes;  fe: "-" or idx.code;  pe: "-" or levels joined by ",",
    level = ptype.code | ptype.code.idx.fcode (outermost first)
    outcome line: <cls> <code> <desc> <fe> <pe> <resp> <in_code> <in_desc> <in_fe> <in_pe>
@@ -54,10 +58,7 @@ let put_status c d f p =
   Buffer.add_string buf (string_of_int (int_of_n c)); Buffer.add_char buf ' ';
   put_desc d; Buffer.add_char buf ' '; put_fe f; Buffer.add_char buf ' '; put_pe p
 
-let one exp act code desc fe pe =
-  let s = { st_code = code; st_desc = desc; st_field = fe; st_param = pe } in
-  let o = send_for_outcome exp act (decoded_wf s) in
-  Buffer.clear buf;
+let put_outcome o =
   (match o.out_err with
    | None -> Buffer.add_string buf "nil - - - -"
    | Some (EOther _) -> Buffer.add_string buf "other - - - -"
@@ -67,7 +68,36 @@ let one exp act code desc fe pe =
    | RespPartial -> Buffer.add_string buf " partial - - - -"
    | RespDecoded None -> Buffer.add_string buf " plain - - - -"
    | RespDecoded (Some s') -> Buffer.add_string buf " decoded ";
-     put_status s'.st_code s'.st_desc s'.st_field s'.st_param);
+     put_status s'.st_code s'.st_desc s'.st_field s'.st_param)
+
+let one exp act code desc fe pe =
+  let s = { st_code = code; st_desc = desc; st_field = fe; st_param = pe } in
+  let o = send_for_outcome exp act (decoded_wf s) in
+  Buffer.clear buf;
+  put_outcome o;
+  print_endline (Buffer.contents buf)
+
+let parse_event tok =
+  match String.split_on_char ':' tok with
+  | ["S"; id; e] -> XSend (ni id, ni e)
+  | ["A"; id] -> XAbandon (ni id)
+  | ["N"; v] -> XNegotiated (ni v)
+  | ["R"; v; t; id; c; d; f; p] ->
+    let s = { st_code = ni c; st_desc = parse_desc d; st_field = parse_fe f; st_param = parse_pe p } in
+    XRecv { fr_ver = ni v; fr_type = ni t; fr_id = ni id; fr_dec = decoded_wf s }
+  | _ -> failwith ("bad event " ^ tok)
+
+let history v toks =
+  let evs = List.map parse_event (List.filter (fun t -> t <> "") toks) in
+  let rs = xresults (ni v) evs in
+  Buffer.clear buf;
+  if rs = [] then Buffer.add_char buf '-';
+  List.iteri (fun k (id, r) ->
+      if k > 0 then Buffer.add_string buf " | ";
+      Buffer.add_string buf (string_of_int (int_of_n id)); Buffer.add_char buf '=';
+      (match r with
+       | XAbandoned -> Buffer.add_string buf "abandoned"
+       | XOutcome o -> put_outcome o)) rs;
   print_endline (Buffer.contents buf)
 
 let () =
@@ -78,6 +108,8 @@ let () =
        | ["types"] ->
          print_endline (String.concat " " (List.map (fun t -> string_of_int (int_of_n t)) status_types))
        | ["x"; e; a; c; d; f; p] -> one (ni e) (ni a) (ni c) (parse_desc d) (parse_fe f) (parse_pe p)
+       | ["xf"; e; a] ->
+         Buffer.clear buf; put_outcome (send_for_outcome (ni e) (ni a) (fun _ -> DecFail)); print_endline (Buffer.contents buf)
        | ["r"; e; a; lo; hi; d; f; p] ->
          let e = ni e and a = ni a and d = parse_desc d and f = parse_fe f and p = parse_pe p in
          for c = int_of_string lo to int_of_string hi - 1 do one e a (n_of_int c) d f p done
@@ -90,6 +122,7 @@ let () =
              | TParam i -> "param " ^ string_of_int (int_of_n i) | TField i -> "field " ^ string_of_int (int_of_n i)
              | TDevice i -> "device " ^ string_of_int (int_of_n i) | TUnknown c -> "unknown " ^ string_of_int (int_of_n c)))
          done
+       | "h" :: v :: toks -> history v toks
        | [""] -> ()
        | _ -> print_endline ("error: bad request: " ^ line))
     done
